@@ -1068,9 +1068,33 @@ package query
 //@   trusted assumed: resets the buffer and returns it to the pool; touches only the buffer
 //@   ensures keyBufsOut == old(keyBufsOut) - 1
 //@   modifies keyBufsOut
+// C04: which equality a bucket key encodes. looseKeys / strictKeys count the keys built with the normalising encoder
+// (SerializeKey: integer, float, datetime, boolean, else case-insensitive trimmed text) and with the exact one
+// (SerializeIdenticalKey: type and text). Under --strict-equal no bucket key may come from the normalising encoder.
+//@ ghost var looseKeys int
+//@ ghost var strictKeys int
+//@ func SerializeIdenticalKey
+//@   trusted assumed: appends the exact (type + text) key of the value to the buffer
+//@   ghostset strictKeys = strictKeys + 1
+//@   modifies strictKeys
 //@ func SerializeComparisonKeys
-//@   trusted assumed frame: writes only the key buffer (its conversions' temporaries go back to the value pool)
-//@   modifies nothing
+//@   trusted assumed frame: writes only the key buffer (its conversions' temporaries go back to the value pool); the dispatch on --strict-equal is proved (variant below)
+//@   ensures flags.StrictEqual ==> looseKeys == old(looseKeys)
+//@   ensures !flags.StrictEqual ==> strictKeys == old(strictKeys)
+//@   modifies looseKeys, strictKeys
+//@ func SerializeComparisonKeys!dispatch
+//@   property C04
+//@   ensures [strict-equal-never-uses-the-normalising-key] old(flags.StrictEqual) ==> looseKeys == old(looseKeys)
+//@   ensures [default-never-uses-the-exact-key] !old(flags.StrictEqual) ==> strictKeys == old(strictKeys)
+//@   loop 1 invariant flags.StrictEqual == old(flags.StrictEqual) && (old(flags.StrictEqual) ==> looseKeys == old(looseKeys)) && (!old(flags.StrictEqual) ==> strictKeys == old(strictKeys))
+//@   modifies *
+//@ func Distinguish
+//@   property C04
+//@   ensures [strict-equal-never-uses-the-normalising-key] old(flags.StrictEqual) ==> looseKeys == old(looseKeys)
+//@   ensures [default-never-uses-the-exact-key] !old(flags.StrictEqual) ==> strictKeys == old(strictKeys)
+//@   loop 1 invariant flags.StrictEqual == old(flags.StrictEqual) && (old(flags.StrictEqual) ==> looseKeys == old(looseKeys)) && (!old(flags.StrictEqual) ==> strictKeys == old(strictKeys))
+//@   loop 2 invariant flags.StrictEqual == old(flags.StrictEqual) && (old(flags.StrictEqual) ==> looseKeys == old(looseKeys)) && (!old(flags.StrictEqual) ==> strictKeys == old(strictKeys))
+//@   modifies *
 //@ func (*View).group$1
 //@   property C12 C13
 //@   requires 0 <= thIdx && thIdx < len(groupsList) && thIdx < len(groupKeysList)
@@ -1267,3 +1291,22 @@ package query
 //@   property C05
 //@   ensures [error-returns-minus-one] result1 != nil ==> result0 == -1
 //@   modifies fresh
+
+// ---------------------------------------------------------------------------------------------
+// C04 / C07: the per-cell cache of sort keys (View.sortValuesInEachCell). A cached key sits in the slot of the column it
+// was computed from: slot c of row r, when filled, is the sort key of cell (r, c). PARTITION BY and ORDER BY read the
+// cache by column index, so a key stored in another column's slot silently buckets / orders by the wrong column.
+//@ spec func svSource(sv *SortValue) value.Primary
+//@ func NewSortValue
+//@   trusted assumed: computes the sort key of one value (its classification is C06/C07 material); the ghost function svSource names the value a key was computed from
+//@   ensures result != nil && fresh(result) && svSource(result) == val
+//@   modifies fresh
+//@ spec def cacheRowOk(view *View, r int) bool = forall(c, 0, len(view.sortValuesInEachCell[r]), c < len(view.RecordSet[r]) && view.sortValuesInEachCell[r][c] != nil ==>
+//@     svSource(view.sortValuesInEachCell[r][c]) == view.RecordSet[r][c][0])
+//@ func Analyze$1
+//@   property C04
+//@   requires view != nil && 0 <= index && index < len(view.sortValuesInEachCell) && index < len(view.RecordSet) && cacheRowOk(view, index)
+//@   requires forall(j, 0, len(partitionIndices), 0 <= partitionIndices[j] && partitionIndices[j] < len(view.RecordSet[index]))
+//@   ensures [cached-key-sits-in-its-column-slot] cacheRowOk(view, index)
+//@   loop 1 invariant cacheRowOk(view, index) && view.sortValuesInEachCell == old(view.sortValuesInEachCell) && view.RecordSet == old(view.RecordSet) && same(view.RecordSet[index], old(view.RecordSet[index]))
+//@   modifies *
